@@ -138,7 +138,7 @@ def run(ck):
     for n in dt.calls():
         if n.get("ck") == "member" and is_ref_to(n.get("obj"), gl["decl"]) and name_is(n.get("callee"), ("testAndSetOrdered", "testAndSetRelease", "testAndSetAcquire", "testAndSetRelaxed", "compare_exchange_strong")):
             a = n.get("args", [])
-            if len(a) >= 2 and skip_copies(a[0]).get("k") == "this" and skip_copies(a[1]).get("k") == "null_lit":
+            if len(a) >= 2 and skip_copies(deref_local(dt, a[0])).get("k") == "this" and skip_copies(deref_local(dt, a[1])).get("k") == "null_lit":
                 clears.append(n)
         if n.get("ck") == "member" and is_ref_to(n.get("obj"), gl["decl"]) and name_is(n.get("callee"), ("storeRelease", "store", "storeRelaxed")) and n.get("args") and skip_copies(n["args"][0]).get("k") == "null_lit":
             clears.append(n)
@@ -166,7 +166,7 @@ def run(ck):
     inst = F.fn(LG + "::installMessageHandler")
     ck.touch(inst)
     g = Graph(inst)
-    st = [n for n in inst.calls() if is_ref_to(n.get("obj"), gl["decl"]) and n.get("args") and skip_copies(n["args"][0]).get("k") == "this"]
+    st = [n for n in inst.calls() if is_ref_to(n.get("obj"), gl["decl"]) and n.get("args") and skip_copies(deref_local(inst, n["args"][0])).get("k") == "this"]
     st += inst.find(lambda n: n.get("k") == "binop" and n.get("op") == "=" and is_ref_to(n.get("lhs"), gl["decl"]) and skip_copies(n.get("rhs")).get("k") == "this")
     qi = [n for n in inst.calls("qInstallMessageHandler")]
     ok = bool(st) and bool(qi) and all(g.dominated(q, set(g.sites_of_nodes(st))) for q in g.sites_of_nodes(qi))
